@@ -88,7 +88,7 @@ V("c11-line-writes-directly", "C11", CN, "        if count:\n            self._b
 V("c11-write-unguarded", "C11", CN, "        with self._lock:\n            if self._buffer_index == 0:\n                if self.is_jupyter:", "        with self._lock:\n            if self._buffer_index >= 0:\n                if self.is_jupyter:", "R11.2")
 V("c11-shared-buffer-default", "C11", CN, "    buffer: List[Segment] = field(default_factory=list)", "    buffer: List[Segment] = []", "R11.3")
 V("c11-not-thread-local", "C11", CN, "class ConsoleThreadLocals(threading.local):", "class ConsoleThreadLocals:", "R11.3")
-V("c11-export-text-outside-lock", "C11", CN, "        with self._record_buffer_lock:\n            if styles:\n                text = \"\".join(\n                    (style.render(text) if style else text)\n                    for text, style, _ in self._record_buffer\n                )",
+V("c11-export-text-outside-lock", "C11", CN, "        with self._record_buffer_lock:\n            if styles:\n                text = \"\".join(\n                    (style.render(text) if style else text)\n                    for text, style, is_control in self._record_buffer\n                    if not is_control\n                )",
   "        if styles:\n            text = \"\".join(\n                (style.render(text) if style else text)\n                for text, style, _ in self._record_buffer\n            )\n            return text\n        with self._record_buffer_lock:\n            if styles:\n                text = \"\"", "R11.4")
 V("c11-live-update-no-lock", "C11", LV, "        with self._lock:\n            self._live_render.set_renderable(renderable)\n            if refresh:\n                self.refresh()", "        self._live_render.set_renderable(renderable)\n        if refresh:\n            self.refresh()", "R11.4")
 V("c11-liverender-no-lock", "C11", LV, "        with self._live._lock:\n            lines = console.render_lines(self.renderable, options, pad=False)\n", "        if True:\n            lines = console.render_lines(self.renderable, options, pad=False)\n", "R11.4")
@@ -440,3 +440,4 @@ V("c05-getitem-negative-index", "C05", TX, "            if slice < 0:\n         
 V("c05-getitem-no-base-style", "C05", TX, "                self.plain[offset],\n                style=self.style,\n", "                self.plain[offset],\n", "R5.9")
 V("c05-append-text-lazy-self-extend", "C05", TX, "        self._spans.extend(text_spans)\n        self._length += len(text)\n        return self\n\n    def append_tokens", "        self._spans.extend(\n            _Span(start + text_length, end + text_length, style)\n            for start, end, style in text._spans\n        )\n        self._length += len(text)\n        return self\n\n    def append_tokens", "R5.10")
 V("c05-benign-getitem-range-normalise", "C05", TX, "            if slice < 0:\n                slice += len(self.plain)\n                if slice < 0:\n                    raise IndexError(\"Text index out of range\")\n            return get_text_at(slice)\n", "            index = range(len(self.plain))[slice]\n            return get_text_at(index)\n", None)
+V("c15-styled-export-includes-control", "C15", CONS, "                    for text, style, is_control in self._record_buffer\n                    if not is_control\n", "                    for text, style, _ in self._record_buffer\n", "R15.5")
